@@ -17,6 +17,8 @@
           validateAcceptingOrdersAndCanUserSettle, the validation prefix of FillBids / FillAsks,
           and the seller ratio lookup of calculateSellerSettlementRatioFee
       x/exchange/market.go   Market.Validate: only the required-attribute rule (ValidateReqAttrs)
+      x/exchange/keeper/market.go  UpdateMarketAcceptingOrders / UpdateUserSettlementAllowed /
+          UpdateMarketAcceptingCommitments (effect on the three flags only)
 
     A market's fee options live in the store keyed by denom (flat) or by price denom + fee denom
     (ratios): they are modelled as association lists looked up by key.  Assumed (enforced by
@@ -206,6 +208,18 @@ Definition create_market (m : market) : option stored :=
       Some {| s_mkt := m; s_req_ask := na; s_req_bid := nb; s_req_com := nc |}
     else None
   else None.
+
+(** Keeper.UpdateMarketAcceptingOrders / UpdateUserSettlementAllowed /
+    UpdateMarketAcceptingCommitments: the three flags are replaced, nothing else changes. *)
+Definition set_flags (m : market) (ao us ac : bool) : market :=
+  {| m_create_ask := m_create_ask m; m_create_bid := m_create_bid m; m_create_com := m_create_com m;
+     m_seller_flat := m_seller_flat m; m_seller_ratios := m_seller_ratios m;
+     m_buyer_flat := m_buyer_flat m; m_buyer_ratios := m_buyer_ratios m;
+     m_accepting_orders := ao; m_user_settle := us; m_accepting_commitments := ac;
+     m_req_ask := m_req_ask m; m_req_bid := m_req_bid m; m_req_com := m_req_com m |}.
+Definition set_flags_stored (s : stored) (ao us ac : bool) : stored :=
+  {| s_mkt := set_flags (s_mkt s) ao us ac;
+     s_req_ask := s_req_ask s; s_req_bid := s_req_bid s; s_req_com := s_req_com s |}.
 
 (** ** Requests *)
 Inductive action :=
